@@ -34,8 +34,10 @@ func init() {
 			"R3: the record<->proto codec reads and writes every field of kvs.Record. R4: the key prefix added by the mapping has the length its inverse strips; ListKeys maps the pattern and un-maps results. " +
 			"R5: one PutMany is written by a single strategy (one MSET, or record by record front to back), never both. " +
 			"R6: every SET/SETNX gets the TTL computed from the ExpiresAt of the record being written (what is stored is what was given). " +
-			"R7: every stored record gets a fresh version (C02.R2). R8: the in-memory ListKeys compiles the glob without separators (as redis MATCH has none). In R1 every ErrConflict/ErrNotExist return of CasByVersion sits on its deciding edge (no class is returned from anywhere else).",
-		NotDecided: "equality of results for all operation sequences. Known value-level divergences outside these rules: redis strips leading '/' from keys, turns an empty value into nil, GetMany() with no keys is a server error.",
+			"R7: every stored record gets a fresh version (C02.R2). R8: the in-memory ListKeys compiles the glob without separators (as redis MATCH has none). In R1 every ErrConflict/ErrNotExist return of CasByVersion sits on its deciding edge (no class is returned from anywhere else). " +
+			"R9: the redis key mapping is injective - the storage key reaches the redis key only through prefixing (concatenation, Sprintf with a constant %s/%v/%q format); slicing, trimming, folding, cleaning or a merge of alternatives is a lossy step (each is its own obligation). R10: the key/pattern argument of every redis command is the mapped key. " +
+			"R11: a command taking a caller-sized list (MGET, MSET) is issued only under a guard that the list is non-empty (the server rejects the empty form, the contract answers an empty batch with an empty result).",
+		NotDecided: "equality of results for all operation sequences. Known value-level divergences outside these rules: redis turns an empty value into nil (equal under bytes.Equal); the glob dialects of redis MATCH and gobwas/glob differ beyond * and ? ({a,b}, [!a]).",
 	})
 	register(&Check{
 		ID: "C06", Title: "KV storage: an expired record is indistinguishable from a deleted one",
